@@ -569,6 +569,8 @@ func handle(f []string) string {
 		return handleLwr(f)
 	case "dqs":
 		return handleDqs(f)
+	case "dqm":
+		return handleDqm(f)
 	}
 	return "bad-op"
 }
